@@ -973,6 +973,23 @@ fn c07_reads(ctx: &Ctx, st: &mut C07Stats, case: &dyn Fn() -> Value, what: &str,
                         json!({"case": case(), "start": show_opt(*s), "end": show_opt(*e), "order": ord_name(o), "panic": p}),
                     ),
                 }
+                // the keys-only and values-only listings of the same view (what cw-storage-plus `keys()` uses)
+                match catch(|| (v.range_keys(*s, *e, o).collect::<Vec<_>>(), v.range_values(*s, *e, o).collect::<Vec<_>>())) {
+                    Ok((ks, vs)) => {
+                        let wk: Vec<Vec<u8>> = want.iter().map(|r| r.0.clone()).collect();
+                        let wv: Vec<Vec<u8>> = want.iter().map(|r| r.1.clone()).collect();
+                        if ks != wk || vs != wv {
+                            ctx.violation(
+                                &format!("c07:keys-or-values-only-listing-mismatch:{}:{}", what, feat),
+                                json!({"case": case(), "start": show_opt(*s), "end": show_opt(*e), "order": ord_name(o), "got_keys": ks.iter().map(|k| hex(k)).collect::<Vec<_>>(), "got_values": vs.iter().map(|k| hex(k)).collect::<Vec<_>>(), "want": show_recs(&want)}),
+                            );
+                        }
+                    }
+                    Err(p) => ctx.violation(
+                        &format!("c07:keys-only-listing-panic:{}:{}", what, feat),
+                        json!({"case": case(), "start": show_opt(*s), "end": show_opt(*e), "order": ord_name(o), "panic": p}),
+                    ),
+                }
             }
         }
     }
